@@ -31,6 +31,12 @@ def make(dtype, shape, layout, seed, d):
         if layout == "memmap_T": a = m.T
         elif layout == "memmap_rev": a = m[::-1]
         elif layout == "memmap_strided": a = m[1::2, ::-3] if m.ndim == 2 else m[1::3]
+        elif layout == "memmap_view":
+            # the array handed to the worker does not have the dtype the backing memmap was opened with
+            if dt.names: a = m[dt.names[-1]]                                        # one field of a record memmap
+            elif dt.kind == "c": a = m.imag                                          # component of a complex memmap
+            elif dt.kind in "SUV" or dt.itemsize == 1: a = m.view("u1")              # raw bytes
+            else: a = m.view(("<i%d" if dt.kind == "f" else "<u%d" if dt.kind in "iu" and dt.itemsize == 8 else "<f%d" if dt.itemsize in (4, 8) else "<u%d") % dt.itemsize)
     return a
 
 
